@@ -66,7 +66,7 @@ func genC03Op(t *rapid.T, a *ref.AF) OpC03 {
 		o.V = uint64(rapid.Byte().Draw(t, "sc"))
 	case "tpdOwn", "extOwn":
 		// a window of the field's current value, as the function-style getter returns it (a sub-slice of the packet), handed back to the setter
-		o.V = uint64(rapid.IntRange(0, 0xFFFF).Draw(t, "own-window"))
+		o.V = uint64(rapid.IntRange(0, 0x1FFFF).Draw(t, "own-window"))
 	case "tpd", "ext":
 		// room for this field's data given everything else currently in the model
 		other := a.Content()
@@ -184,7 +184,7 @@ func c03Fits(a *ref.AF) bool { return a.Content() <= a.Len }
 // c03Window maps a drawn value to a window [lo,hi) of a value of n bytes.
 func c03Window(v uint64, n int) (int, int) {
 	lo := int(v&0xFF) % (n + 1)
-	hi := lo + int(v>>8)%(n-lo+1)
+	hi := lo + int(v>>8&0xFF)%(n-lo+1)
 	return lo, hi
 }
 
@@ -385,10 +385,14 @@ func c03Call(p *packet.Packet, o OpC03, model *ref.AF) error {
 			return nil // field absent: the model makes no call either
 		}
 		lo, hi := c03Window(o.V, len(cur))
-		if o.Kind == "tpdOwn" {
-			return af.SetTransportPrivateData(cur[lo:hi])
+		win := cur[lo:hi]
+		if o.V&0x10000 != 0 {
+			win = cur[lo:hi:hi] // the same window with its capacity clipped (slices.Clip)
 		}
-		return af.SetAdaptationFieldExtension(cur[lo:hi])
+		if o.Kind == "tpdOwn" {
+			return af.SetTransportPrivateData(win)
+		}
+		return af.SetAdaptationFieldExtension(win)
 	case "copyOwnAF":
 		own, err := p.AdaptationField()
 		if err != nil {
